@@ -29,9 +29,9 @@ Definition head_ok (m : Z) (X : list row) (args : list arg) (o : list row) : boo
   (length o =? length X)%nat &&
   forallb (fun i => row_eqb (nth i o []) (expected_row m X args i)) (seq 0 (length X)).
 
-(* every forward call ran in evaluation mode with gradients disabled *)
+(* every forward call ran with EVERY (sub-)module in evaluation mode and gradients disabled *)
 Definition flags_ok (t : list callrec) : bool :=
-  forallb (fun c => negb (cr_training c) && negb (cr_grad c)) t.
+  forallb (fun c => forallb negb (cr_training c) && negb (cr_grad c)) t.
 
 Definition args_aligned (c : call) : bool :=
   forallb (fun a => (length a =? length (c_X c))%nat) (c_args c).
@@ -87,16 +87,18 @@ Definition yval_eqb (a b : yval) : bool :=
   end.
 
 Definition callrec_eqb (a b : callrec) : bool :=
-  Bool.eqb (cr_training a) (cr_training b) && Bool.eqb (cr_grad a) (cr_grad b) &&
+  list_eqb Bool.eqb (cr_training a) (cr_training b) && Bool.eqb (cr_grad a) (cr_grad b) &&
   rows_eqb (cr_X a) (cr_X b) && list_eqb rows_eqb (cr_args a) (cr_args b).
 
 Definition outcome_eqb (a b : outcome) : bool :=
   res_eqb yval_eqb (fst a) (fst b) && list_eqb callrec_eqb (snd a) (snd b).
 
 (* one correspondence case: the call, what the implementation did (value + full call trace),
-   and whether X and every arg were bit-identical after the call                          *)
-Definition case := (call * outcome * bool)%type.
+   whether X and every arg were bit-identical after the call, and whether the module's buffers
+   (batch-norm running statistics, batch counter) were bit-identical after the call -- a forward
+   in evaluation mode never touches them                                                    *)
+Definition case := (call * outcome * bool * bool)%type.
 
 Definition check_case (c : case) : nat :=
-  let '(cl, o, unchanged) := c in
-  verdict (outcome_eqb o (model cl)) (unchanged && spec_ok cl o).
+  let '(cl, o, unchanged, buffers_unchanged) := c in
+  verdict (outcome_eqb o (model cl)) (unchanged && buffers_unchanged && spec_ok cl o).
